@@ -10,6 +10,9 @@ model vs implementation.  Only `Drv/C03.lean` imports it. -/
 namespace CbiVerif.PP.Old
 open CbiVerif.PP
 
+/-- repair of finding D44: only punctuators / operators delimit the arguments of a call (same as `MX.dtext`) -/
+def dtextOld (t : Tok) : String := if t.kind == .punct || t.kind == .op then t.text else ""
+
 structure Helper where
   toks : List (Option Tok)
   pos : Nat
@@ -149,7 +152,7 @@ partial def expandLoop (tbl : Table) : XM Unit := do
           match m.args with
           | some _ =>
             let paren ← peekTok
-            if (paren.map (·.text)) != some "(" then
+            if (paren.map dtextOld) != some "(" then
               backUp; replaceTok ctok; expandLoop tbl
             else
               let _ ← consumeTok
@@ -176,9 +179,9 @@ partial def expandLoop (tbl : Table) : XM Unit := do
 
 partial def collectArgs (args : List (List Tok)) (cur : List Tok) (depth : Nat) : XM (List (List Tok)) := do
   let tok ← consumeTok
-  if tok.text == "," && depth == 1 then collectArgs (args ++ [cur]) [] depth
-  else if tok.text == "(" then collectArgs args (cur ++ [tok]) (depth + 1)
-  else if tok.text == ")" then
+  if dtextOld tok == "," && depth == 1 then collectArgs (args ++ [cur]) [] depth
+  else if dtextOld tok == "(" then collectArgs args (cur ++ [tok]) (depth + 1)
+  else if dtextOld tok == ")" then
     if depth == 1 then pure (args ++ [cur]) else collectArgs args (cur ++ [tok]) (depth - 1)
   else collectArgs args (cur ++ [tok]) depth
 
